@@ -188,12 +188,8 @@ func (p *Parser) parseServiceItemStmt() *ast.ServiceItemStmt {
 	}
 
 	// statement @handler
-	if !p.advanceIfPeekTokenIs(token.AT_HANDLER, token.RBRACE) {
+	if !p.advanceIfPeekTokenIs(token.AT_HANDLER) {
 		return nil
-	}
-
-	if p.peekTokenIs(token.RBRACE) {
-		return stmt
 	}
 
 	atHandlerStmt := p.parseAtHandlerStmt()
@@ -428,6 +424,11 @@ func (p *Parser) parsePathExpr() *ast.PathExpr {
 		if p.notExpectPeekToken(token.QUO, token.LPAREN, token.Returns, token.AT_DOC, token.AT_HANDLER, token.SEMICOLON, token.RBRACE) {
 			return nil
 		}
+	}
+
+	if len(values) == 0 {
+		p.expectPeekToken(token.QUO)
+		return nil
 	}
 
 	var textList []string
